@@ -109,10 +109,10 @@ PROPS['C09'] = dict(
 
 PROPS['C10'] = dict(
     level='exploration',
-    technique='rapidcheck generation of symmetric / Hermitian matrices (small-integer, zero-diagonal, graded, block, SPD, indefinite) x shifts x storage forms; backward-error, exact-determinant (Bareiss) and metamorphic oracles',
-    level_text='Random search with shrinking over scalar type (real and complex, three precisions), n <= 40, seven matrix classes (element-wise drawn small integers where '
+    technique='rapidcheck generation of symmetric / Hermitian matrices (small-integer, zero-diagonal, graded, block, SPD, indefinite, entry-wise wild scales) x shifts x storage forms; backward-error, exact-determinant (Bareiss) and metamorphic oracles',
+    level_text='Random search with shrinking over scalar type (real and complex, three precisions), n <= 40, eight matrix classes (entries m*10^e drawn one by one with arbitrary relative magnitudes, n <= 7; element-wise drawn small integers where '
                'singularity is decided exactly by a Bareiss determinant; zero diagonals that force 2x2 pivots; graded; block diagonal), four shift kinds, five argument forms '
-               '(col/row major, block, Map, expression), both triangles, recompute-after-failure histories and reuse of one object after it factorized and solved another system of another size '
+               '(col/row major, block, Map, expression), both triangles, right-hand sides that are random or of the form M y (solution with order-one components on every row), recompute-after-failure histories and reuse of one object after it factorized and solved another system of another size '
                '(status and solution bit-identical to a fresh object). Asserts: success whenever sigma_min >= 1e-6 ||M||; backward error <= 64 n eps '
                '(||M|| ||x|| + ||b||) for every Successful solve; lower/upper status equal and solutions within 64 n eps cond; unused triangle never read (bit-identical); '
                'DenseSymShiftSolve::set_shift throws invalid_argument exactly when the factorization reports non-success.',
@@ -122,7 +122,7 @@ PROPS['C10'] = dict(
         quick=[dict(unit='c10', cases=5000, workers=4)],
         thorough=[dict(unit='c10', cases=80000, workers='all', set=dict(nmax=80))],
     ),
-    min=dict(quick=dict(cases=15000, nontrivial=8000, classes={'class/small_integer': 1000, 'class/zero_diagonal': 500, 'DenseSymShiftSolve wrapper': 1000, 'n=1': 50, 'reported_singular': 100, 'recompute_after_failure': 1000, 'exact_zero_line': 1000, 'exact_zero_line_at_n-2': 100, 'object_reused_after_other_system': 3000}),
+    min=dict(quick=dict(cases=15000, nontrivial=8000, classes={'class/small_integer': 1000, 'class/zero_diagonal': 500, 'DenseSymShiftSolve wrapper': 1000, 'n=1': 50, 'reported_singular': 100, 'recompute_after_failure': 1000, 'exact_zero_line': 1000, 'exact_zero_line_at_n-2': 100, 'object_reused_after_other_system': 3000, 'class/wild_entry_scales': 1200, 'rhs_is_M_times_y': 4000}),
              thorough=dict(cases=1000000, nontrivial=500000)),
     rule='case = (scalar type, matrix class, n, entries or content seed, scale, shift kind, argument form, first triangle, constructor path, optional failing factorization first, rhs seed) '
          'or a DenseSymShiftSolve wrapper case. Each case factorizes three times (given triangle, other triangle, given triangle with garbage in the unused one). '
